@@ -10,8 +10,27 @@ from ..gen.muxlayouts import make_map
 
 
 def value_tokens(width):
+    """All values up to 2 bits; above that 0, ~0 and, for every binary digit d of the bit index, the pattern
+    'bit i = digit d of i' and its complement: any two bit positions (hence any two chunks of a register, any
+    two lanes of a bus word) differ in some token, and every bit takes both values."""
     if width == 0:
         return [0]
+    if width <= 2:
+        return list(range(1 << width))
+    full = (1 << width) - 1
+    toks = {0, full}
+    d = 0
+    while (1 << d) < width:
+        p = 0
+        for i in range(width):
+            p |= ((i >> d) & 1) << i
+        toks |= {p, p ^ full}
+        d += 1
+    return sorted(toks)
+
+
+def compact_tokens(width):
+    """0, ~0, 1010.., 0101..: enough to tell registers apart (used where many registers change at once)"""
     if width <= 2:
         return list(range(1 << width))
     full = (1 << width) - 1
@@ -55,6 +74,7 @@ def write_probes(h):
 class MuxObserver:
     """side = 'r' checks the read half of RefCSR, 'w' the write half, 'rw' both."""
     side = "rw"
+    tokens = staticmethod(value_tokens)
 
     def __init__(self, cfg, h, comp):
         regs = h.meta["regs"]
@@ -75,7 +95,7 @@ class MuxObserver:
             if name not in comp.support or w == 0:
                 doms.append((0,))
             elif name.startswith("val") or (name == "w_data" and w > 2):
-                doms.append(value_tokens(w))
+                doms.append(self.tokens(w))
             else:
                 doms.append(range(1 << w))
         self._letters = list(itertools.product(*doms))
